@@ -347,3 +347,77 @@ T("C18", "twin-statement-form-selection", (DECM, """    new_operations_to_decomp
         if current_rule.predicate(operation)
         else [operation]
     )""", """    new_operations_to_decompose = current_rule.production(operation) if current_rule.predicate(operation) else [operation]"""))
+
+# ----------------------------------------------------------------------------- C05
+SER = "circuits/_serde.py"
+BLT = "circuits/_builtin_gates.py"
+B("C05", "exponent-key-renamed-on-writer", (SER, '        "exponent": gate.exponent,', '        "power": gate.exponent,'), rule="C05-D")
+B("C05", "num-control-qubits-not-written", (SER, '        "num_control_qubits": gate.num_control_qubits,\n', ''), rule="C05-D")
+B("C05", "power-reader-wrong-key", (SER, 'return _gates.Power(wrapped_gate, dict_["exponent"])', 'return _gates.Power(wrapped_gate, dict_["num_control_qubits"])'), rule="C05-D")
+B("C05", "dagger-arm-dropped", (SER, """@to_dict.register
+def _dagger_gate_to_dict(gate: _gates.Dagger):""", """def _dagger_gate_to_dict(gate: _gates.Dagger):"""), rule="C05-D2")
+B("C05", "map-iterator-restored", (SER, '    symbol_names = dict_.get("free_symbols", [])\n    return gate_def(', '    symbol_names = map(str, dict_.get("free_symbols", []))\n    return gate_def('), rule="C05-D5")
+B("C05", "custom-params-with-definition-names", (SER, '    symbol_names = dict_.get("free_symbols", [])\n    return gate_def(', '    symbol_names = [serialize_expr(s) for s in gate_def.params_ordering]\n    return gate_def('), rule="C05-D")
+B("C05", "dagger-routed-by-contains", (SER, 'elif dict_["name"].endswith(_gates.DAGGER_GATE_NAME):', 'elif _gates.DAGGER_GATE_NAME in dict_["name"]:'), rule="C05-D4")
+B("C05", "power-test-before-dagger", (SER, """    elif dict_["name"].endswith(_gates.DAGGER_GATE_NAME):
+        wrapped_gate = _gate_from_dict(dict_["wrapped_gate"], custom_gate_defs)
+        return _gates.Dagger(wrapped_gate)
+
+    elif dict_["name"] == _gates.EXPONENTIAL_GATE_NAME:
+        wrapped_gate = _gate_from_dict(dict_["wrapped_gate"], custom_gate_defs)
+        return _gates.Exponential(wrapped_gate)
+
+    elif _gates.POWER_GATE_SYMBOL in dict_["name"]:
+        wrapped_gate = _gate_from_dict(dict_["wrapped_gate"], custom_gate_defs)
+        return _gates.Power(wrapped_gate, dict_["exponent"])
+""", """    elif _gates.POWER_GATE_SYMBOL in dict_["name"]:
+        wrapped_gate = _gate_from_dict(dict_["wrapped_gate"], custom_gate_defs)
+        return _gates.Power(wrapped_gate, dict_["exponent"])
+
+    elif dict_["name"].endswith(_gates.DAGGER_GATE_NAME):
+        wrapped_gate = _gate_from_dict(dict_["wrapped_gate"], custom_gate_defs)
+        return _gates.Dagger(wrapped_gate)
+
+    elif dict_["name"] == _gates.EXPONENTIAL_GATE_NAME:
+        wrapped_gate = _gate_from_dict(dict_["wrapped_gate"], custom_gate_defs)
+        return _gates.Exponential(wrapped_gate)
+"""), rule="C05-D4")
+B("C05", "mutable-default-symbol-table", (SER, """def _make_symbols_map(
+    symbol_names: Iterable[str],
+) -> Dict[str, Union[sympy.Symbol, Dict[int, sympy.Symbol]]]:
+    symbols_map: Dict[str, Union[sympy.Symbol, Dict[int, sympy.Symbol]]] = {}
+""", """def _make_symbols_map(
+    symbol_names: Iterable[str],
+    symbols_map: Dict[str, Union[sympy.Symbol, Dict[int, sympy.Symbol]]] = {},
+) -> Dict[str, Union[sympy.Symbol, Dict[int, sympy.Symbol]]]:
+"""), rule="C05-D5")
+B("C05", "n-qubits-conditional", (SER, '        "n_qubits": circuit.n_qubits,\n', '        **({"n_qubits": circuit.n_qubits} if circuit.operations else {}),\n'), rule="C05-D1")
+B("C05", "wrapped-definitions-not-threaded", (SER, """    if dict_["name"] == _gates.CONTROLLED_GATE_NAME:
+        wrapped_gate = _gate_from_dict(dict_["wrapped_gate"], custom_gate_defs)""", """    if dict_["name"] == _gates.CONTROLLED_GATE_NAME:
+        wrapped_gate = _gate_from_dict(dict_["wrapped_gate"], [])"""), rule="C05-D3")
+B("C05", "operations-reversed-on-read", (SER, '            for op_dict in dict_.get("operations", [])', '            for op_dict in reversed(dict_.get("operations", []))'), rule="C05-D3")
+B("C05", "builtin-gate-renamed", (BLT, 'SX = _gates.MatrixFactoryGate("SX", _matrices.sx_matrix, (), 1)', 'SX = _gates.MatrixFactoryGate("SQRT_X", _matrices.sx_matrix, (), 1)'), rule="C05-D4")
+B("C05", "sympify-without-locals", (SER, "    return sympy.sympify(expr_str, locals=symbols_map)", "    return sympy.sympify(expr_str)"), rule="C05-D5")
+B("C05", "free-symbols-dropped-by-writer", (SER, """        **(
+            {"free_symbols": sorted(map(str, gate.free_symbols))}
+            if gate.free_symbols
+            else {}
+        ),
+""", ""), rule="C05-D")
+B("C05", "custom-reader-before-wrappers", (SER, """    try:
+        return _special_gate_from_dict(dict_, custom_gate_defs)
+    except KeyError:
+        pass
+
+    return _custom_gate_instance_from_dict(dict_, custom_gate_defs)""", """    try:
+        return _custom_gate_instance_from_dict(dict_, custom_gate_defs)
+    except ValueError:
+        pass
+
+    return _special_gate_from_dict(dict_, custom_gate_defs)"""), rule="C05-D4")
+T("C05", "twin-get-vs-guarded-subscript", (SER, '        for def_dict in dict_.get("custom_gate_definitions", [])', '        for def_dict in (dict_["custom_gate_definitions"] if "custom_gate_definitions" in dict_ else [])'))
+T("C05", "twin-keys-reordered", (SER, """        "name": gate.name,
+        "wrapped_gate": to_dict(gate.wrapped_gate),
+        "exponent": gate.exponent,""", """        "exponent": gate.exponent,
+        "name": gate.name,
+        "wrapped_gate": to_dict(gate.wrapped_gate),"""))
